@@ -115,14 +115,42 @@ func (w *worker) stop() {
 type pool struct {
 	w        *worker
 	restarts int
+	slow     int
 }
 
 var createdID = regexp.MustCompile(`"id"\s*:\s*"?(\d+)`)
 
 var panicLine = regexp.MustCompile(`(?m)^(panic|fatal error): (.*)$`)
 
-// do serves one request; a dead or silent worker is replaced.
-func (p *pool) do(rq c08req) c08obs {
+// do serves one request. A request that does not return within the 5 s watchdog is sent once more to
+// a fresh worker with a 20 s watchdog: a handler that really spins or sleeps without bound fails
+// both, a handler that was merely slow because the machine is busy returns the second time (noted
+// in the observation). Runaway allocation (heap limit) is not retried.
+func (p *pool) do(rq c08req) c08obs { return p.doP(rq, nil) }
+
+// doP: prelude = the earlier requests the state of this one depends on (sent again before the second attempt).
+func (p *pool) doP(rq c08req, prelude []c08req) c08obs {
+	o := p.do1(rq, 12*time.Second)
+	if o.Class == "hang" && !strings.Contains(o.Raw, "allocating") && rq.WatchdogMS == 0 && rq.Kind != "apiseq" {
+		for _, pr := range prelude {
+			p.do1(pr, 12*time.Second)
+		}
+		rq2 := rq
+		rq2.WatchdogMS = 20000
+		o2 := p.do1(rq2, 27*time.Second)
+		if o2.Class != "hang" {
+			o2.Raw = "slow: no response within 5 s on the first attempt; " + o2.Raw
+			p.slow++
+			return o2
+		}
+		o2.Raw = "no response within 5 s and, on a fresh server, within 20 s"
+		return o2
+	}
+	return o
+}
+
+// do1 serves one request; a dead or silent worker is replaced.
+func (p *pool) do1(rq c08req, silent time.Duration) c08obs {
 	if p.w == nil {
 		w, err := startWorker()
 		if err != nil {
@@ -165,7 +193,7 @@ func (p *pool) do(rq c08req) c08obs {
 			p.restarts++
 		}
 		return o
-	case <-time.After(12 * time.Second):
+	case <-time.After(silent):
 		p.w.cmd.Process.Kill()
 		p.w.stop()
 		p.w = nil
@@ -1658,7 +1686,7 @@ func runC08(c *lib.Ctx) error {
 			otherIdx = append(otherIdx, i)
 		}
 	}
-	restarts := 0
+	restarts, slowTotal := 0, 0
 	var mu sync.Mutex
 	var wg sync.WaitGroup
 	runList := func(idx []int) {
@@ -1671,7 +1699,7 @@ func runC08(c *lib.Ctx) error {
 				rq.URL = strings.ReplaceAll(rq.URL, "{id}", lastID)
 				cases[i].Req.URL = rq.URL
 			}
-			obs[i] = p.do(rq)
+			obs[i] = p.doP(rq, cases[i].Prelude)
 			if rq.Method == "POST" && strings.HasPrefix(rq.URL, "/api/cmaf-ingests") && obs[i].Class == "status" && obs[i].Status < 300 {
 				if m := createdID.FindStringSubmatch(obs[i].Body); m != nil {
 					lastID = m[1]
@@ -1683,6 +1711,7 @@ func runC08(c *lib.Ctx) error {
 		}
 		mu.Lock()
 		restarts += p.restarts
+		slowTotal += p.slow
 		mu.Unlock()
 	}
 	const nWorkers = 8
@@ -1702,7 +1731,7 @@ func runC08(c *lib.Ctx) error {
 		distinct[classOf(obs[i])+"|"+cs.Group] = true
 	}
 	p := &pool{restarts: restarts}
-	c.Res.Notes = append(c.Res.Notes, fmt.Sprintf("%d requests served in %.1f s, %d worker restarts", len(cases), time.Since(t0).Seconds(), p.restarts))
+	c.Res.Notes = append(c.Res.Notes, fmt.Sprintf("%d requests served in %.1f s, %d worker restarts, %d requests slower than 5 s that returned within 20 s on a second attempt", len(cases), time.Since(t0).Seconds(), p.restarts, slowTotal))
 	var ks []string
 	for k := range classes {
 		ks = append(ks, k)
